@@ -24,7 +24,7 @@ Not decided: transcript coverage (R5 of the design), DTLS reorder tolerance (C16
 from sa import absval as av
 from sa.build import AnalysisBroken
 from sa.cg import load_cg
-from sa.ir import load_program, strip, walk, lvalue_root
+from sa.ir import load_program, strip, walk, lvalue_root, ASSIGN_OPS
 from sa.ps import Engine, INT_TYPES
 from sa.report import Finding, Result
 from rules.common import (K_ERR, K_FLAGS, K_HS, SslTracker, TagTracker, classify, dominated_success,
@@ -72,6 +72,94 @@ def names_of(prog, prefix):
     for k, v in prog.const_names(prefix).items():
         inv.setdefault(v, []).append(k)
     return inv
+
+
+def rule_R2l(res, prog, prop=PROP, rid="C06.R2l"):
+    """The Finished / binder comparison covers the whole verify_data: the length argument of the deciding constant-time
+    comparison is either pinned by an (in)equality test against a positive constant on every path from the entry, or
+    every definition of it reaching the comparison is the output length of the negotiated hash."""
+    from sa import cfgutil as cu
+    from sa.pp import pp
+    ORACLES = {"psGetOutputBlockLength", "tls13GetPskHashLen"}
+    SITES = ["parseFinished", "tls13ParseFinished", "tls13VerifyBinder"]
+    res.rule(rid, "the Finished / PSK-binder comparison covers exactly the verify_data length (pinned constant or the "
+                  "negotiated hash's output length)")
+    n = 0
+    for name in SITES:
+        fn = prog.functions.get(name) or next((f for f in prog.functions.values() if f.name == name), None)
+        if fn is None:
+            continue
+        sites = cu.find_sites(fn, lambda x: x.get("k") == "call" and x.get("fn") == "memcmpct" and len(x.get("a", [])) >= 3)
+        rd = None
+        for (bid, idx, ln, c) in sites:
+            n += 1
+            L = strip(c["a"][2])
+            while L is not None and L.get("k") == "cast":
+                L = strip(L["e"])
+            ok, why = False, "length argument %s is not a plain variable" % pp(c["a"][2])[:30]
+            if L is not None and L.get("k") == "var" and "id" in L:
+                ltxt = cu.ftext(L)
+
+                def pin_edge(b, k, ltxt=ltxt):
+                    t = b.get("term")
+                    if t is None or "c" not in t or len(b["succ"]) != 2:
+                        return False
+                    for (txt, tr, nd) in cu._cond_atoms(t["c"], k == 0):
+                        nd = strip(nd)
+                        if nd is None or nd.get("k") != "bin" or nd["op"] not in ("==", "!="):
+                            continue
+                        l_, r_ = strip(nd["l"]), strip(nd["r"])
+                        for a_, b_ in ((l_, r_), (r_, l_)):
+                            while a_ is not None and a_.get("k") == "cast":
+                                a_ = strip(a_["e"])
+                            if a_ is not None and cu.ftext(a_) == ltxt and b_ is not None and b_.get("k") == "int" and b_["v"] > 0:
+                                if (nd["op"] == "==") == bool(tr):
+                                    return True
+                    return False
+                esc = cu.escapes(fn, (fn.entry, None), lambda x: False, exempt_edge=pin_edge,
+                                 target_expr=lambda x, c=c: any(nn is c for nn in walk(x)))
+                assigned = any(nn.get("k") == "bin" and nn["op"] in ASSIGN_OPS and cu.ftext(strip(nn["l"])) == ltxt
+                               for b in fn.blocks for i_, l_, x in cu.block_exprs(b) for nn in walk(x))
+                if esc is None and not assigned:
+                    ok, why = True, "pinned by a constant test on every path"
+                else:
+                    if rd is None:
+                        rd = cu.reaching_defs(fn)
+                    seen, work, bad = set(), list(cu.defs_at(fn, rd, bid, idx, L["id"])), None
+                    if not work:
+                        bad = "no definition"
+                    while work and bad is None:
+                        d = work.pop()
+                        if id(d) in seen:
+                            continue
+                        seen.add(id(d))
+                        if d[2] not in ("decl", "assign"):
+                            bad = "%s at line %s" % (d[2], d[4])
+                            break
+                        r = strip(d[3])
+                        while r is not None and r.get("k") == "cast":
+                            r = strip(r["e"])
+                        if r is not None and r.get("k") == "call" and r.get("fn") in ORACLES:
+                            continue
+                        if r is not None and r.get("k") == "var" and "id" in r:
+                            ds = cu.defs_at(fn, rd, d[0], d[1], r["id"])
+                            if not ds:
+                                bad = "no definition of %s" % pp(r)
+                            work.extend(ds)
+                            continue
+                        bad = "`%s` at line %s" % (pp(r)[:40], d[4])
+                    ok = bad is None
+                    why = "every reaching definition is the negotiated hash's output length" if ok else \
+                        "not pinned by a constant test on every path (e.g. via lines %s) and defined by %s" % (
+                            [p_[1] for p_ in (esc or [])[-5:]], bad)
+            f_ = None
+            if not ok:
+                f_ = Finding(prop, rid, fn.name, "verify_data compared over an unpinned length",
+                             "%s:%s %s(): memcmpct(%s): %s - a peer that controls the length (or a shortened length) needs to "
+                             "match only a prefix (or nothing) of the expected verify_data" % (
+                                 fn.relfile, ln, fn.name, ", ".join(pp(a)[:24] for a in c["a"]), why), file=fn.relfile, line=ln)
+            res.instance(rid, "%s:%s memcmpct(.., %s): %s" % (fn.name, ln, pp(c["a"][2])[:24], why), ok, finding=f_)
+    res.floor(rid, 3)
 
 
 def run(tier):
@@ -335,6 +423,8 @@ def run(tier):
                          file=disp.relfile, line=ent["ln"], path=ps.describe_path(ps.path_to(cur_in[0], cur_in[1])))
         res.instance("C06.R2", "tls13ParseHandshakeMessage: hsState = %s at line %s (%d valuations)" % (
             hname(v), ent["ln"], ent["n"]), ent["bad"] is None, finding=fd)
+
+    rule_R2l(res, prog)
 
     # ---------------------------------------------------------------- R3
     res.rule("C06.R3", "ChangeCipherSpec discipline: read keys are activated only when expecting Finished; the "
